@@ -91,7 +91,7 @@ Definition env_drop_world (e : senv) : senv :=
 Definition sop_sid (so : sop) : N :=
   match so with
   | SInsert s _ _ | SGet s _ | SGetMut s _ _ _ | SRemove s _ | SContains s _ | SCount s | SIsEmpty s | SMask s
-  | SSlice s | SClear s | SDrain s | SEntry s _ _ | SGetMutOrDefault s _ | SRegister s | SRegReader s
+  | SSlice s | SClear s | SDrain s _ | SEntry s _ _ | SGetMutOrDefault s _ | SRegister s | SRegReader s
   | SReadEvents s _ | SSetEmission s _ => s
   end.
 Definition sop_handle (so : sop) : option href :=
@@ -118,7 +118,7 @@ Definition ms_sop (ms : mstore) (av : aview) (ent : entity) (so : sop) (c : ctx)
       | _ => (ms, WSlice SliceNone, c)       (* the wrappers do not implement SliceAccess *)
       end
   | SClear _ => let '(ms1, c1) := m_clear ms c in (ms1, WUnit, c1)
-  | SDrain _ => let '(ms1, l, c1) := st_drain ms c in (ms1, WToks l, c1)
+  | SDrain _ lim => let '(ms1, l, c1) := st_drain ms lim c in (ms1, WToks l, c1)
   | SEntry _ _ eo => let '(ms1, r, c1) := st_entry ms av ent eo c in (ms1, WEntry r, c1)
   | SGetMutOrDefault _ _ => let '(ms1, r, c1) := st_get_mut_or_default ms av ent c in (ms1, WOptTok r, c1)
   | SRegister _ => (ms, WUnit, c)
